@@ -167,6 +167,10 @@ REFS = [
     (FAM_VAR, "no-regex-spaces", "RegExp", "@('a  b');", None),
     (FAM_VAR, "no-control-regex", "RegExp", "v9 = new @('\\\\x1f');", None),
     (FAM_VAR, "no-control-regex", "RegExp", "@('\\\\x1f');", None),
+    # a regular expression literal as the first argument (the literal has its own diagnostic; the call is the reference)
+    (FAM_VAR, "no-regex-spaces", "RegExp", "v9 = new @(/a  b/);", None),
+    (FAM_VAR, "no-regex-spaces", "RegExp", "@(/a  b/, 'g');", None),
+    (FAM_VAR, "no-control-regex", "RegExp", "v9 = new @(/\\x1f/);", None),
     (FAM_VAR, "no-sync-fn-in-async-fn", "Deno", "(async () => { @.readFileSync('a'); })();", None),
     (FAM_VAR, "no-sync-fn-in-async-fn", "Deno", "(async function () { await 1; @.statSync('a'); })();", None),
     # rules that compare the reference's syntax context with the unresolved context
@@ -181,6 +185,12 @@ REFS = [
     (FAM_GA, "no-global-assign", "String", "@++;", None),
     (FAM_GA, "no-global-assign", "Object", "({ @ } = o9);", None),
     (FAM_GA, "no-global-assign", "Map", "[@] = o9;", None),
+    # a bound target precedes / follows the global in the same pattern (the extra arrow only supplies the bound name l9)
+    (FAM_GA, "no-global-assign", "Array", "((l9) => { [l9, @] = o9; })();", None),
+    (FAM_GA, "no-global-assign", "Map", "((l9) => { ({ a: l9, b: @ } = o9); })();", None),
+    (FAM_GA, "no-global-assign", "Object", "((l9) => { [[l9], { c: [@ = 1] }] = o9; })();", None),
+    (FAM_GA, "no-global-assign", "String", "((l9) => { [@, l9] = o9; })();", None),
+    (FAM_GA, "no-global-assign", "Set", "((l9) => { [l9, ...@] = o9; })();", None),
     # `undefined`, `NaN`, `Infinity`: non-configurable properties of the global object.  A top-level declaration of a SCRIPT does not
     # shadow them (swc's resolver leaves such references unresolved, correctly); these programs are therefore made modules (`export {}`).
     (FAM_GA, "no-global-assign", "undefined", "@ = 1;", None),
